@@ -40,6 +40,17 @@ def ruleNamedDOW(ts: datetime, m: RegexMatch) -> Optional[Time]:
     return None
 
 
+def _is_valid_date(day: Optional[int], month: Optional[int], year: Optional[int] = None) -> bool:
+    """False if the day does not exist in that month (31.04., 29.02. outside a leap
+    year); without a year the 29.02. is accepted"""
+    if day is None or month is None:
+        return True
+    if month == 2:
+        leap = year is None or (year % 4 == 0 and (year % 100 != 0 or year % 400 == 0))
+        return day <= (29 if leap else 28)
+    return day <= (30 if month in (4, 6, 9, 11) else 31)
+
+
 _months = [
     ("january", r"january?|jan\.?"),
     ("february", r"february?|feb\.?"),
@@ -258,17 +269,23 @@ def ruleEOY(ts: datetime, _: RegexMatch) -> Time:
 
 
 @rule(predicate("isDOM"), predicate("isMonth"))
-def ruleDOMMonth(ts: datetime, dom: Time, m: Time) -> Time:
+def ruleDOMMonth(ts: datetime, dom: Time, m: Time) -> Optional[Time]:
+    if not _is_valid_date(dom.day, m.month):
+        return None
     return Time(day=dom.day, month=m.month)
 
 
 @rule(predicate("isDOM"), r"of", predicate("isMonth"))
-def ruleDOMMonth2(ts: datetime, dom: Time, _: RegexMatch, m: Time) -> Time:
+def ruleDOMMonth2(ts: datetime, dom: Time, _: RegexMatch, m: Time) -> Optional[Time]:
+    if not _is_valid_date(dom.day, m.month):
+        return None
     return Time(day=dom.day, month=m.month)
 
 
 @rule(predicate("isMonth"), predicate("isDOM"))
-def ruleMonthDOM(ts: datetime, m: Time, dom: Time) -> Time:
+def ruleMonthDOM(ts: datetime, m: Time, dom: Time) -> Optional[Time]:
+    if not _is_valid_date(dom.day, m.month):
+        return None
     return Time(month=m.month, day=dom.day)
 
 
@@ -297,7 +314,9 @@ def ruleDOWNextWeek(ts: datetime, dow: Time, _: RegexMatch) -> Time:
 
 
 @rule(predicate("isDOY"), predicate("isYear"))
-def ruleDOYYear(ts: datetime, doy: Time, y: Time) -> Time:
+def ruleDOYYear(ts: datetime, doy: Time, y: Time) -> Optional[Time]:
+    if not _is_valid_date(doy.day, doy.month, y.year):
+        return None
     return Time(year=y.year, month=doy.month, day=doy.day)
 
 
@@ -383,13 +402,15 @@ def ruleLatentPOD(ts: datetime, pod: Time) -> Time:
 )
 # do not allow dd.ddam, dd.ddpm, but allow dd.dd am - e.g. in the German
 # "13.06 am Nachmittag"
-def ruleDDMM(ts: datetime, m: RegexMatch) -> Time:
+def ruleDDMM(ts: datetime, m: RegexMatch) -> Optional[Time]:
     if m.match.group("month"):
         month = int(m.match.group("month"))
     else:
         for i, (name, _) in enumerate(_months):
             if m.match.group(name):
                 month = i + 1
+    if not _is_valid_date(int(m.match.group("day")), month):
+        return None
     return Time(month=month, day=int(m.match.group("day")))
 
 
@@ -398,13 +419,15 @@ def ruleDDMM(ts: datetime, m: RegexMatch) -> Time:
     r"(?P<day>(?&_day))"
     r"(?!\d|am|\s*pm)".format(_rule_months)
 )
-def ruleMMDD(ts: datetime, m: RegexMatch) -> Time:
+def ruleMMDD(ts: datetime, m: RegexMatch) -> Optional[Time]:
     if m.match.group("month"):
         month = int(m.match.group("month"))
     else:
         for i, (name, _) in enumerate(_months):
             if m.match.group(name):
                 month = i + 1
+    if not _is_valid_date(int(m.match.group("day")), month):
+        return None
     return Time(month=month, day=int(m.match.group("day")))
 
 
@@ -413,7 +436,7 @@ def ruleMMDD(ts: datetime, m: RegexMatch) -> Time:
     r"((?P<month>(?&_month))|(?P<named_month>({})))[-/\.]"
     r"(?P<year>(?&_year))(?!\d)".format(_rule_months)
 )
-def ruleDDMMYYYY(ts: datetime, m: RegexMatch) -> Time:
+def ruleDDMMYYYY(ts: datetime, m: RegexMatch) -> Optional[Time]:
     y = int(m.match.group("year"))
     if y < 100:
         y += 2000
@@ -423,6 +446,8 @@ def ruleDDMMYYYY(ts: datetime, m: RegexMatch) -> Time:
         for i, (name, _) in enumerate(_months):
             if m.match.group(name):
                 month = i + 1
+    if not _is_valid_date(int(m.match.group("day")), month, y):
+        return None
     return Time(year=y, month=month, day=int(m.match.group("day")))
 
 
@@ -635,6 +660,8 @@ def ruleDOMDate(ts: datetime, d1: Time, _: RegexMatch, d2: Time) -> Optional[Int
 def ruleDateDOM(ts: datetime, d1: Time, _: RegexMatch, d2: Time) -> Optional[Interval]:
     if d1.day >= d2.day:
         return None
+    if not _is_valid_date(d2.day, d1.month, d1.year):
+        return None
     return Interval(t_from=d1, t_to=Time(year=d1.year, month=d1.month, day=d2.day))
 
 
@@ -643,6 +670,8 @@ def ruleDOYDate(ts: datetime, d1: Time, _: RegexMatch, d2: Time) -> Optional[Int
     if d1.month > d2.month:
         return None
     elif d1.month == d2.month and d1.day >= d2.day:
+        return None
+    if not _is_valid_date(d1.day, d1.month, d2.year):
         return None
     return Interval(t_from=Time(year=d2.year, month=d1.month, day=d1.day), t_to=d2)
 
